@@ -403,9 +403,11 @@ class CPreProcessor:
             if macro.args is None:  # Macro without arguments
                 expansion = macro.value
             else:  # This macro requires arguments
-                token = self.next_token()
+                # Note that the token after the macro name is not expanded:
+                token = self.next_token(expand=False)
                 if not token or token.typ != "(":
-                    self.unget_token(token)
+                    if token:
+                        self.unget_token(token)
                     return
                 args = self.gatherargs(macro)
                 expansion = self.substitute_arguments(macro, args)
